@@ -152,6 +152,8 @@ class World:
         self.model = Model(cfg['degs'], cfg['knots0'])
         self.truncate = cfg['truncate']
         self.history = []           # actual refinements (dict level -> sorted list of cells)
+        self.requests = []          # the refinement calls as issued (for the fresh-replay coherence oracle)
+        self.nqueries = 0
         self.snapshots = []         # (hs deep copy, model copy, step)
         self.originals = []         # (hs original before copy(), model copy, truncate flag)
         self.nrefine = 0
@@ -181,8 +183,14 @@ def marks_from_choices(w, o):
     marks, kinds = {}, {}
     for l in chosen:
         act = sorted(m.active_cells(l))
-        pat = o.weighted([('few', 5), ('single', 3), ('block', 3), ('all', 1), ('row', 1)])
-        if pat == 'single':
+        pat = o.weighted([('few', 5), ('single', 3), ('block', 3), ('all', 1), ('row', 1), ('subset', 2)])
+        if pat == 'subset':
+            # uniformly random non-empty subset (every cell with probability 1/2): the quantifier's
+            # "all non-empty subsets of active cells", sampled
+            cells = [c for c in act if o.choice(2)]
+            if not cells:
+                cells = [act[o.choice(len(act))]]
+        elif pat == 'single':
             cells = [act[o.choice(len(act))]]
         elif pat == 'few':
             cells = [act[i] for i in o.sample_positions(len(act), 4)]
@@ -213,9 +221,11 @@ def do_refine(w, marks, kinds, via='refine', region=None):
     before_active = {l: set(m.active_cells(l)) for l in range(m.L + 1)}
     arg = containerise(marks, kinds)
     if via == 'refine':
+        w.requests.append(('refine', containerise(marks, kinds)))
         ret = ctx.call('refine', hs.refine, arg)
     else:
         lv, pred = region
+        w.requests.append(('region', lv, pred))
         ret = ctx.call('refine_region', hs.refine_region, lv, pred)
     if ret is RAISED():
         return False
@@ -475,6 +485,86 @@ def do_query(w, name, o):
     raise AssertionError(name)
 
 
+def canon(r):
+    """Canonical, exactly comparable form of a query result."""
+    from pyiga import hierarchical
+    if r is None or isinstance(r, (bool, int, float, str)):
+        return r
+    if sp.issparse(r):
+        r = r.toarray()
+    if isinstance(r, np.ndarray):
+        if r.dtype == object:
+            return ('objarr', tuple(canon(x) for x in r.tolist()))
+        return ('arr', r.shape, r.dtype.kind, np.ascontiguousarray(r).tobytes())
+    if isinstance(r, (np.integer, np.floating, np.bool_)):
+        return r.item()
+    if isinstance(r, hierarchical.HSpace):
+        return ('HSpace', r.dim, r.numlevels, bool(r.truncate),
+                tuple(tuple(sorted(r.active_cells(l))) for l in range(r.numlevels)),
+                tuple(tuple(sorted(r.active_functions(l))) for l in range(r.numlevels)),
+                tuple(tuple(sorted(r.deactfun[l])) for l in range(r.numlevels)),
+                tuple(tuple(kv.kv.tolist()) for kv in r.knotvectors(0)),
+                repr(sorted(r.bdspecs)) if getattr(r, 'bdspecs', None) is not None else None)
+    if isinstance(r, dict):
+        return ('dict', tuple(sorted((repr(k), canon(v)) for k, v in r.items())))
+    if isinstance(r, (set, frozenset)):
+        return ('set', tuple(sorted(repr(canon(x)) for x in r)))
+    if isinstance(r, (list, tuple)):
+        return ('seq', tuple(canon(x) for x in r))
+    return ('repr', repr(r))
+
+
+def all_queries(hs, dim):
+    """Every cache-backed / derived query with every argument, as (name, thunk)."""
+    out = [(n, (lambda n=n: getattr(hs, n))) for n in ('index_dirichlet', 'ravel_dirichlet', 'ravel_global')]
+    for lv in range(hs.numlevels):
+        out.append(('dirichlet_dofs(%d)' % lv, lambda lv=lv: hs.dirichlet_dofs(lv)))
+        out.append(('virtual_space(%d)' % lv, lambda lv=lv: hs.get_virtual_space(lv)))
+    out.append(('non_dirichlet_dofs', hs.non_dirichlet_dofs))
+    for st in ('new', 'trunc', 'func_supp', 'cell_supp'):
+        out.append(('smooth:' + st, lambda st=st: hs.indices_to_smooth(st)))
+    out.append(('represent_fine', hs.represent_fine))
+    out.append(('thb_to_hb', hs.thb_to_hb))
+    out.append(('incidence_matrix', hs.incidence_matrix))
+    out.append(('vh_prolongators', hs.virtual_hierarchy_prolongators))
+    out.append(('active_indices', lambda: (hs.active_indices(), hs.deactivated_indices())))
+    out.append(('global_indices', lambda: (hs.global_indices() if hasattr(hs, 'global_indices') else None)))
+    if dim >= 2:
+        for ax in range(dim):
+            for sd in (0, 1):
+                out.append(('boundary(%d,%d)' % (ax, sd), lambda ax=ax, sd=sd: hs.boundary((ax, sd))))
+    return out
+
+
+def coherence_check(w):
+    """History-only bug class: lazily filled caches must be invalidated by refine().  Every query on the
+    object that lived through the history (with cache-filling queries between refinements, copies, flag
+    flips) must equal the same query on a FRESH HSpace that replays only the refinement calls."""
+    from pyiga import hierarchical
+    ctx, hs, cfg = w.ctx, w.hs, w.cfg
+    fresh = hierarchical.HSpace(w.kvs, truncate=cfg['truncate'], disparity=cfg['disparity'], bdspecs=cfg['bdspecs'])
+    for rq in w.requests:
+        if rq[0] == 'refine':
+            fresh.refine(rq[1])
+        else:
+            fresh.refine_region(rq[1], rq[2])
+    fresh.truncate = hs.truncate
+    for (name, thunk), (_, thunk2) in zip(all_queries(hs, cfg['dim']), all_queries(fresh, cfg['dim'])):
+        a = ctx.call(name, thunk)
+        if a is RAISED():
+            return False
+        try:
+            b = thunk2()
+        except Exception:       # the fresh object cannot answer either: nothing to compare
+            ctx.count('coherence.fresh-raises')
+            continue
+        ctx.check(canon(a) == canon(b), 'stale-after-refine',
+                  lambda: '%s on the object that lived through the history differs from the same query on a fresh '
+                  'HSpace replaying only the refinements %s' % (name, w.history), w.sig(what='coherence', query=name.split('(')[0]))
+    ctx.count('coherence.checked')
+    return True
+
+
 PREDICATES = [
     ('x<', lambda a: (lambda *x: x[0] < a)),
     ('x>', lambda a: (lambda *x: x[0] > a)),
@@ -565,6 +655,7 @@ def run_case(ctx):
             if r is RAISED():
                 return
             w.queried_since_refine = True
+            w.nqueries += 1
             if not structure_matches(w, prop == 'C04'):
                 if prop != 'C04':
                     ctx.count('abandoned.structure-mismatch')
@@ -621,6 +712,9 @@ def run_case(ctx):
         if not structure_matches(w2, prop == 'C04'):
             return
         ctx.count('copy.isolation.checked')
+    if w.nqueries and w.nrefine and prop in ('C04', 'C11'):
+        if not coherence_check(w):
+            return
     if prop == 'C04':
         return
     if not structure_matches(w, False):
